@@ -12,21 +12,27 @@ ClsB    == <<"asm", "blk", "cmp">>
 ParentC == <<0, 1, 2, 2>>
 ClsC    == <<"asm", "blk", "cmp", "cmp">>
 
+\* tree D: block > component
+ParentD == <<0, 1>>
+ClsD    == <<"blk", "cmp">>
+KeepsNone == {{}}
+
 McParOf   == [c \in {"asm", "blk", "cmp"} |-> Par]
-McInPlace == {<<"cmp", "p">>}
 McGridCls == {"asm", "blk"}
 McMatCls  == {"cmp"}
 \* keep-sets: nothing; one parameter of one class; the same abstract parameter on two classes; mixed
 KeepsSmall == {{}, {<<"cmp", "p">>}, {<<"blk", "q">>, <<"cmp", "q">>}}
+KeepsTwo   == {{}, {<<"blk", "q">>, <<"cmp", "q">>, <<"cmp", "p">>}}
 KeepsFull  == {{}, {<<"cmp", "p">>}, {<<"cmp", "q">>}, {<<"blk", "p">>}, {<<"blk", "q">>, <<"cmp", "q">>},
                {<<"asm", "p">>, <<"blk", "p">>, <<"cmp", "p">>}, {<<"asm", "q">>, <<"cmp", "p">>, <<"cmp", "q">>}}
 ActsAll    == {"Enter", "Exit", "Assign", "AssignRO", "SetCache", "SetGrid", "DeepCopy", "Pickle", "MakeReadOnly"}
 ActsParams == {"Enter", "Exit", "Assign"}
 ActsGrid   == {"Enter", "Exit", "SetGrid", "SetCache"}
+ActsAsBuilt == {"Enter", "Exit", "SetGrid", "Pickle"}
 ActsCopy   == {"Enter", "Exit", "Assign", "AssignRO", "DeepCopy", "Pickle", "MakeReadOnly", "SetCache"}
 
 Bound == TLCGet("level") <= MaxLevel
 \* the snapshots inside the frames are determined by the backups (BackupsAreSnapshots) and never read by Next
-View  == <<tree, pvars, cvars, gvars, [i \in 1..Len(frames) |-> <<frames[i].root, frames[i].keep>>], ro, svars>>
+View  == <<tree, pvars, cvars, gvars, [i \in 1..Len(frames) |-> <<frames[i].root, frames[i].keep>>], ro, svars, bad>>
 Emit  == PrintT(ToJson([lvl |-> TLCGet("level"), from |-> Vars, act |-> act', to |-> Vars', obs |-> Obs']))
 =====================================================================================================
